@@ -6,6 +6,20 @@ CLAIMED = {
    text='Proof: for every k in 1..6, all coefficient sets and all pairwise distinct grid spacings, the Lagrange model returns the value at zero spacing exactly (Coq, field); order-independence for every data set (permutation proof); log variant; refusal outside 1..6; entrywise fallback. The closed formulas in Numerics.py are re-translated from the current source on every run and proved equal to the model for all inputs; the dispatch table is extracted from the AST; make_extrap_func/make_extrap_log_func are run against the model over exact rationals.',
    note='Trusted: Coq kernel+vm_compute; Reals axioms (sig_forall_dec, sig_not_dec, classic, functional_extensionality_dep); the pyexpr translator; the harness. Float evaluation is compared with exact evaluation at 1e-11 x conditioning scale. numpy masked-array/Spectrum glue is covered by execution only.',
    technique='Coq proof (field/permutation) + per-run translated obligations + correspondence by vm_compute over Q', design='4/C07'),
+
+ 'C09': dict(
+  text='Proof: for every dimension d, every shape and every mask (arrays as C-order lists of length prod(shape), reverse-all-axes proved equal to list reversal): fold conserves the total (whole array, and over unmasked entries relative to the symmetrised mask), fold(mirror x)=fold x (data and mask), folded mask = own OR mirror OR folded-out OR corner, fold(unfold(fold x))=fold x for data, mask and the whole Spectrum object, ambiguous entries = mean of entry and mirror, none when the total is odd, misid = (1-p)x+p*mirror(x) entrywise with mask OR and conserved total, mixed folded/unfolded arithmetic refused by all 14 binary + 7 in-place methods (and nothing else refused), folding flag/shape/labels kept and masks OR-ed, slicing keeps flag/labels, ll/ll_multinom fold an unfolded model against folded data and refuse a folded model against unfolded data. Per run: the misid formula, the unfold average and the ambiguous update are re-translated from the source and proved equal to the model (ring/field), the folded-out/ambiguous/mask lines are compared structurally (AST), and fold/unfold/misid/operators/slicing/ll/ll_multinom are run against the model over exact rationals (d=1..5, both parities, random masks), plus the property predicates on the implementation.',
+  note='Trusted: Coq kernel+vm_compute; Reals axioms (sig_forall_dec, sig_not_dec, classic, functional_extensionality_dep); Num parametricity; pyexpr + the AST shape checks; the harness. numpy ufuncs, basic slicing, masked-array views and operator dispatch are platform (execution only). Floor division and power are evaluated on Q only for non-zero divisors / integer exponents. Values compared at 1e-11 relative where unmasked; masks, flags and labels compared exactly.',
+  technique='Coq proof (involution/telescoping over an abstract index set, instantiated for all shapes) + per-run translated obligations + correspondence by vm_compute over Q',
+  design='4/C09'),
+ 'C10': dict(
+  text='Proof (unbounded in dimension and sizes): marginalize = sum over the dropped coordinates (mask = all-masked, corners), filter_pops = marginalize over the complement, reorder_pops = axis permutation (composition, inverse, refusal of non-permutations), combine_two_pops/combine_pops/Misc.combine_pops = entries added at the summed allele count on the lowest merged axis (scatter loop proved equal to the gather sum), scramble_pop_ids = pooled 1-D spectrum times multivariate hypergeometric weight; every operation conserves the total (scramble by multivariate Vandermonde, any number of populations); labels move by the same axis selection as coordinates, merged label = "+".join in population order; combine_pops depends only on the set; marginalize commutes with reorder (induced order); reorder commutes with fold (data and mask). The model is run against the real code over exact rationals for d=2..6 (all subsets/permutations/pairs/merge sets for d<=4 in thorough), with/without labels, folded/unfolded, random masks, plus refusals. Partial: commutation with projection (non-merged, non-dropped axes) and of marginalize/combine/scramble with fold is checked numerically on the implementation, not proved.',
+  note='Trusted: Coq kernel+vm_compute; Reals axioms (sig_forall_dec, sig_not_dec, classic, functional_extensionality_dep); parametricity R/Q; the harness and its independent Python index arithmetic for the predicates. Values under masked entries are not compared. scramble_pop_ids/Misc.combine_pops drop labels, scramble on internally masked input yields NaN for whole total-classes (modelled as is).',
+  technique='Coq proof (push-forward/fiber-sum lemmas over a commutative monoid, permutation arguments, MathComp Vandermonde) + correspondence by vm_compute over Q + predicates on the implementation', design='4/C10'),
+ 'C11': dict(
+  text='Proof: for all entry lists/masks, ll = sum of -m+d ln m-lg(d+1) over exactly the indices masked in neither (and m>0, numpy.ma.log); reported scaling = sum(d)/sum(m) over those indices; for all s>0 ll(s*m,d) <= ll_multinom(m,d) = ll(s_opt*m,d) (from ln x <= x-1); ll_multinom(c*m,d)=ll_multinom(m,d) for all c<>0 and any-sign models; every positive model with the same masks has ll_multinom <= that of const*data (zeros in the data handled; needs lg 1 = 0); auto-fold; residual masks, values and sign. The arithmetic lines of ll_per_bin and both residuals are re-translated from the current source each run and proved equal to the model; wiring statements and intersect_masks (incl. its mask_corners flag) are matched against the expected AST; all seven functions are run against the model over exact rationals (d=1..3, projected/non-integer data, zeros, independent masks, folded data, zero/negative model stream).',
+  note='Trusted: Coq kernel+vm_compute; Reals axioms (sig_forall_dec, sig_not_dec, classic, functional_extensionality_dep); gammaln uninterpreted (lg); fold a function argument with hypothesis fold(s*l)=s*fold(l), discharged for the executable fold_flat, whose equality with Spectrum.fold is covered by the folded correspondence cases (C09 owns folding); numpy.ma semantics modelled by hand; Qln_fast/Qexp_fast/Qlgamma approximations (checked against math.log/lgamma every run). scaling_is_ratio and the two maximum theorems carry a corner hypothesis that holds for the code since fix e944ec0 (intersect_masks passes mask_corners=False); the refuted variant is kept as a theorem.',
+  technique='Coq proof (index-sum algebra, ln x <= x-1, Rpower monotonicity) + per-run translated obligations + correspondence by vm_compute over Q', design='4/C11'),
 }
 NOT_YET = {}
 def main():
